@@ -116,7 +116,7 @@ def _dict_key(r, obj, ctxp):
         return ['none']
     if k == 'bool':
         return ['bool', r.random() < 0.5]
-    return ['str', r.choice(['zz', 'q', 'a', 'b', 'new', '2', '3'])]
+    return ['str', r.choice(['zz', 'q', 'a', 'b', 'new', '2', '3', 'a b', 'a  b', 'a\tb', 'x y', 'x  y'])]
 
 
 def _value(r, model):
@@ -245,7 +245,10 @@ def generate(seed, tier):
             op = {'op': 'eval', 'prog': prog, 'style': prev['style'], 'probes': probes}
         else:
             prog, probes = _gen_op(ro, model, last_write)
-            op = {'op': 'eval', 'prog': prog, 'style': gen.style(S['render']), 'probes': probes}
+            style = gen.style(S['render'])
+            if ro.random() < 0.25:
+                style = 0           # canonical layout: texts then differ only where the PROGRAMS differ (say, blanks inside a key)
+            op = {'op': 'eval', 'prog': prog, 'style': style, 'probes': probes}
         ops.append(op)
         out = model.run(prog)
         last_write = None
